@@ -14,6 +14,17 @@ func main() {
 		os.Exit(2)
 	}
 	prop := os.Args[1]
+	if prop == "gen" {
+		fs := flag.NewFlagSet("gen", flag.ExitOnError)
+		out := fs.String("out", "", "output directory")
+		fs.String("repo", "", "unused (the packages are linked in)")
+		fs.Parse(os.Args[2:])
+		if err := os.MkdirAll(*out, 0o755); err != nil {
+			panic(err)
+		}
+		runGen(*out)
+		return
+	}
 	fs := flag.NewFlagSet("harness", flag.ExitOnError)
 	tier := fs.String("tier", "quick", "quick or thorough")
 	seed := fs.Int64("seed", 1, "PRNG seed")
